@@ -142,7 +142,7 @@ class Conc:
             else:
                 raise core.MachineryError("layout token %r" % (t,))
         self.lay = list(lay)
-        self.idioms = 0 if canonical else rng.randrange(4)
+        self.idioms = 0 if canonical else rng.randrange(56)      # entry-point variants (see Session)
 
     # -- (de)serialisation for replay files
     def to_json(self):
@@ -173,7 +173,7 @@ class Conc:
             self.word[wid] = (rng.choice(free) if rng and free else None) or "w%d" % wid
         return self.word[wid]
 
-    def tables(self):
+    def tables(self, keep=False):
         """model value (tuple of codes) <-> text for every run of the layout that starts and ends in a word
         and holds no separator (the comment lines inside are not part of the value), and for single words.
         This only inverts the concretization; which runs ARE values is decided by TLC."""
@@ -196,8 +196,8 @@ class Conc:
                     if self.lay[j] == SEP:
                         break
                     if self.lay[j] >= 1:
-                        put([c for c in self.lay[i:j + 1] if c != CM],
-                            "".join(x for c, x in zip(self.lay[i:j + 1], self.texts[i:j + 1]) if c != CM))
+                        put([c for c in self.lay[i:j + 1] if keep or c != CM],
+                            "".join(x for c, x in zip(self.lay[i:j + 1], self.texts[i:j + 1]) if keep or c != CM))
         return enc, dec
 
     def enc_value(self, codes, enc=None):
@@ -218,35 +218,141 @@ def interp_of(mode):
     return LIST_SPACE_SEPARATED_INTERPRETATION if mode == "sp" else LIST_COMMA_SEPARATED_INTERPRETATION
 
 
-def parse(text):
+def parse(text, dups=False):
     from debian._deb822_repro import parse_deb822_file
+    if dups:
+        return parse_deb822_file(text.splitlines(keepends=True), accept_files_with_duplicated_fields=True)
     return parse_deb822_file(text.splitlines(keepends=True))
 
 
-def read_field(text, mode, field, want_list=True):
+# ---- every public way to obtain the list object of a field (notes/API_SURFACE.md) ----------------------------
+N_OPEN = 7
+
+
+def make_list(para, mode, key, variant=0, keep=False):
+    """key: field name or (name, i).  keep: discard_comments_on_read=False (only interpret_as / interpret offer it)"""
+    interp = interp_of(mode)
+    if keep:
+        kv = para.get_kvpair_element(key)
+        return [lambda: kv.interpret_as(interp, discard_comments_on_read=False),
+                lambda: interp.interpret(kv, discard_comments_on_read=False),
+                lambda: interp.interpret(kv, False)][variant % 3]()
+    v = variant % N_OPEN
+    if v == 0:
+        return para.as_interpreted_dict_view(interp)[key]
+    if v == 1:
+        return para.as_interpreted_dict_view(interp, auto_resolve_ambiguous_fields=False)[key]
+    if v == 2:
+        return para.as_interpreted_dict_view(interp, auto_resolve_ambiguous_fields=True)[(key, 0) if isinstance(key, str) else key]
+    kv = para.get_kvpair_element(key)
+    if v == 3:
+        return para.as_interpreted_dict_view(interp)[kv.field_token]
+    if v == 4:
+        return kv.interpret_as(interp)
+    if v == 5:
+        return interp.interpret(kv)
+    return kv.interpret_as(interp, discard_comments_on_read=True)
+
+
+class _Abort(Exception):
+    """raised by the harness inside a with-block: the block must not write anything"""
+
+
+def _with_statement(obj, box):
+    try:
+        with obj as lst:
+            box["lst"] = lst
+            cmd = yield
+            if cmd == "abort":
+                raise _Abort("leave the block by an exception")
+        box["res"] = "ok"
+    except _Abort:
+        box["res"] = "ok"
+    except ValueError:
+        box["res"] = "ValueError"
+    except Exception as e:
+        box["res"] = "EXC:%s" % type(e).__name__
+    yield
+
+
+class Block:
+    """one with-block on a list object: a real `with` statement (kept suspended in a generator while the
+    harness makes its calls) or manual __enter__/__exit__ calls"""
+
+    def __init__(self, obj, real_with):
+        self.obj, self.real_with, self.gen, self.box = obj, real_with, None, {}
+
+    def enter(self):
+        if self.real_with:
+            self.box = {}
+            self.gen = _with_statement(self.obj, self.box)
+            next(self.gen)
+            if "lst" not in self.box:
+                raise RuntimeError("entering the with-block failed: %s" % self.box.get("res"))
+            return self.box["lst"]
+        return self.obj.__enter__()
+
+    def leave(self, abort=False):
+        try:
+            if self.real_with:
+                self.gen.send("abort" if abort else "leave")
+                self.gen.close()
+                return self.box.get("res", "EXC:?")
+            if abort:
+                exc = _Abort("leave the block by an exception")
+                return "ok" if not self.obj.__exit__(_Abort, exc, None) else "EXC:swallowed"
+            self.obj.__exit__(None, None, None)
+            return "ok"
+        except ValueError:
+            return "ValueError"
+        except Exception as e:
+            return "EXC:%s" % type(e).__name__
+
+
+def read_field(text, mode, field, want_list=True, keep=False, dups=False, variant=0):
     """fresh parse: (value list of the field or None, field names | message).  With want_list=False
     only the document level is looked at (the list is returned as [])"""
     try:
-        f = parse(text)
+        f = parse(text, dups)
         if f.find_first_error_element() is not None:
             return None, "error element in a fresh parse"
         paras = list(f)
         if len(paras) != 1:
             return None, "%d paragraphs in a fresh parse" % len(paras)
-        names = list(paras[0].keys())
+        names = [str(k) for k in paras[0].keys()]
         if not want_list:
             return [], names
-        vals = list(paras[0].as_interpreted_dict_view(interp_of(mode))[field])
+        vals = show(make_list(paras[0], mode, field, variant, keep), variant, keep, strict=True)
         return vals, names
     except Exception as e:      # observation, not a harness failure
         return None, "fresh parse raised %s: %s" % (type(e).__name__, e)
 
 
-def call(lst, op, v=None, w=None, i=0):
+COMMENT_ARGS = ["note", "# given", "", "tail   \n", "#x", "two words"]
+_scratch = {}
+
+
+def value_element(mode, text):
+    """a value element for append_value(), taken from the list view of a scratch document (public API only)"""
+    f = parse("Scratch: %s\n" % text)
+    kv = next(iter(f)).get_kvpair_element("Scratch")
+    els = list(kv.interpret_as(interp_of(mode)).value_parts)
+    if len(els) != 1:
+        raise ValueError("not a single value: %r" % text)
+    _scratch[id(els[0])] = f            # keep the scratch document alive (parents are weak references)
+    if len(_scratch) > 64:
+        _scratch.clear()
+    return els[0]
+
+
+def call(lst, op, v=None, w=None, i=0, variant=0, mode=None):
     """one call on the open list; returns 'ok' | 'ValueError' | 'EXC:<type>'"""
     try:
         if op == "append":
-            lst.append(v)
+            if variant % 3 == 1 and mode is not None:
+                lst.append_value(value_element(mode, v))
+            else:
+                lst.append(v)
         elif op == "remove":
             lst.remove(v)
         elif op == "replace":
@@ -256,15 +362,25 @@ def call(lst, op, v=None, w=None, i=0):
         elif op == "refremove":
             list(lst.iter_value_references())[i - 1].remove()
         elif op == "sep":
-            lst.append_separator()
+            lst.append_separator() if variant % 2 else lst.append_separator(space_after_separator=True)
         elif op == "sep0":
-            lst.append_separator(space_after_separator=False)
+            lst.append_separator(space_after_separator=False) if variant % 2 else lst.append_separator(False)
         elif op == "nl":
             lst.append_newline()
         elif op == "cmt":
-            lst.append_comment("note")
+            lst.append_comment(COMMENT_ARGS[variant % len(COMMENT_ARGS)])
         elif op == "reformat":
             lst.reformat_when_finished()
+        elif op == "noreformat":
+            lst.no_reformatting_when_finished()
+        elif op in ("vfmt", "vfmtf"):
+            from debian._deb822_repro.formatter import one_value_per_line_trailing_separator
+            if op == "vfmt":
+                lst.value_formatter(one_value_per_line_trailing_separator)
+            elif variant % 2:
+                lst.value_formatter(one_value_per_line_trailing_separator, True)
+            else:
+                lst.value_formatter(one_value_per_line_trailing_separator, force_reformat=True)
         else:
             raise core.MachineryError("op %r" % op)
         return "ok"
@@ -276,47 +392,62 @@ def call(lst, op, v=None, w=None, i=0):
         return "EXC:%s" % type(e).__name__
 
 
-def show(lst):
+N_READ = 4
+
+
+def show(lst, variant=0, keep=False, strict=False):
+    """what the view shows, through one of the public read paths: list(), iteration, value_parts, the values
+    of iter_value_references(); bool(lst) must agree"""
     try:
-        return list(lst)
+        v = variant % N_READ
+        if v == 0:
+            out = list(lst)
+        elif v == 1:
+            out = [x for x in iter(lst)]
+        elif v == 2:
+            out = [(e.convert_to_text() if keep else e.convert_to_text_without_comments()) for e in lst.value_parts]
+        else:
+            out = [r.value for r in lst.iter_value_references()]
+        if bool(lst) != bool(out):
+            return ["<bool(lst) is %r but the view shows %r>" % (bool(lst), out)]
+        return out
     except Exception as e:
-        return ["<list() raised %s>" % type(e).__name__]
+        if strict:
+            raise
+        return ["<reading the list raised %s>" % type(e).__name__]
 
 
 class Session:
-    """a with-block on the list view of one field of a parsed document"""
+    """a with-block on the list view of one field of a parsed document; `idiom` selects the entry points"""
 
-    def __init__(self, text, mode, field, idiom=0):
+    def __init__(self, text, mode, field, idiom=0, keep=False):
         self.file = parse(text)
         self.para = next(iter(self.file))
-        self.mode, self.field = mode, field
-        self.view = self.para.as_interpreted_dict_view(interp_of(mode))
+        self.mode, self.field, self.keep = mode, field, keep
         self.idiom = idiom
         self.lst = None
+        self.block = None
+        self.reads = idiom
 
     def open_values(self):
-        # a separate interpretation object: reading it must not touch the list that is edited later
+        # a separate list object made through ANOTHER entry point: reading it must not touch the list edited later
         try:
-            return list(self.view[self.field])
+            return show(make_list(self.para, self.mode, self.field, self.idiom + 3, self.keep), self.idiom + 1, self.keep, strict=True)
         except Exception as e:
             return ["<reading the view raised %s: %s>" % (type(e).__name__, str(e)[:80])]
 
     def enter(self):
-        if self.idiom % 2 == 0:
-            self.lst = self.view[self.field]
-        else:
-            self.lst = self.para.get_kvpair_element(self.field).interpret_as(interp_of(self.mode))
-        self.lst.__enter__()
+        obj = make_list(self.para, self.mode, self.field, self.idiom, self.keep)
+        self.block = Block(obj, (self.idiom // N_OPEN) % 2 == 1)
+        self.lst = self.block.enter()
         return self.lst
 
-    def leave(self):
-        try:
-            self.lst.__exit__(None, None, None)
-            return "ok"
-        except ValueError:
-            return "ValueError"
-        except Exception as e:
-            return "EXC:%s" % type(e).__name__
+    def show(self):
+        self.reads += 1
+        return show(self.lst, self.reads, self.keep)
+
+    def leave(self, abort=False):
+        return self.block.leave(abort)
 
     def dump(self):
         try:
@@ -386,12 +517,14 @@ def run_case(ctx, case, conc, drift=None):
         lst = s.enter()
     except Exception as e:
         return "opening the view raised %s: %s" % (type(e).__name__, e)
-    if conc.idioms == 3 and show(lst) != exp0:
-        return "values in the with-block %r, expected %r" % (show(lst), exp0)
+    if conc.idioms % 4 == 3:
+        got = s.show()
+        if got != exp0:
+            return "values in the with-block %r, expected %r" % (got, exp0)
     for k, e in enumerate(case["ops"]):
         v = conc.enc_value(e["v"], enc) if e["v"] else None
         w = conc.enc_value(e["w"], enc) if e["w"] else None
-        r = call(lst, e["op"], v, w, e["i"])
+        r = call(lst, e["op"], v, w, e["i"], conc.idioms + k, mode)
         where = "call %d %s(%s)" % (k + 1, e["op"], ", ".join(repr(x) for x in (v, w, e["i"] or None) if x is not None))
         absent = e["op"] in ("remove", "replace") and e["r"] == "ValueError"
         if r != e["r"]:
@@ -400,15 +533,22 @@ def run_case(ctx, case, conc, drift=None):
             if drift is not None:
                 drift("%s: outcome %s, model %s" % (where, r, e["r"]))
         exp = [conc.enc_value(x, enc) for x in e["vals"]]
-        got = show(lst)
+        got = s.show()
         if got != exp:
             return "%s: the view shows %r, reference list %r (field text %r)" % (where, got, exp, conc.value_text())
-    r = s.leave()
+    abort = conc.idioms % 10 == 9           # every 10th concretization leaves the block by an exception
+    r = s.leave(abort)
     after = s.dump()
     expv = [conc.enc_value(x, enc) for x in case["vals"]]
     where = "leaving the with-block after %d call(s)" % len(case["ops"])
     if r.startswith("EXC:"):
         return "%s raised %s" % (where, r[4:])
+    if abort:                               # ListView!AAbort: nothing is written
+        if r != "ok":
+            return "%s by an exception: __exit__ raised %s itself" % (where, r)
+        if after != text:
+            return "%s by an exception, yet the document changed: %r -> %r" % (where, text, after)
+        return None
     if r == "ValueError":
         if not (case["tail"] == "cmt" or not case["vals"]):       # ListView!CloseMayRefuse
             return "%s raised ValueError, the reference list %r can be written" % (where, expv)
@@ -578,7 +718,7 @@ def stress_layout(rng, mode, kind, n):
     return lay
 
 
-def record_trace(rng, mode, nwords, nsessions, nops, script=None, lay=None, forced=None, stress=False, huge=False):
+def record_trace(rng, mode, nwords, nsessions, nops, script=None, lay=None, forced=None, stress=False, huge=False, keep=None):
     """execute random with-blocks on a real document; returns the trace for TLC plus what replay needs.
     With `script` (a recorded list of concrete sessions) the same calls are executed again."""
     if script is None:
@@ -586,16 +726,20 @@ def record_trace(rng, mode, nwords, nsessions, nops, script=None, lay=None, forc
             lay = gen_layout(rng, mode, nwords)
         conc = Conc(rng, mode, lay, stress=stress, huge=huge)
         sessions = None
+        if keep is None:        # discard_comments_on_read=False: only where it makes a difference
+            keep = mode == "cm" and rng.random() < 0.25
     else:
         conc = Conc.from_json(script["conc"])
         lay = conc.lay
         sessions = script["sessions"]
-    _, dec = conc.tables()
+        keep = script.get("keep", False)
+    _, dec = conc.tables(keep)
     nextid = [100]
     last_obs = [[]]
+    cur_s = [None]
 
     def observe(lst):
-        last_obs[0] = show(lst)
+        last_obs[0] = cur_s[0].show()
         return [code_of(x) for x in last_obs[0]]
 
     def code_of(s):
@@ -627,7 +771,8 @@ def record_trace(rng, mode, nwords, nsessions, nops, script=None, lay=None, forc
     cur = text
     for sn in range(nsessions if sessions is None else len(sessions)):
         try:
-            s = Session(cur, mode, conc.field, rng.randrange(4) if sessions is None else sessions[sn]["idiom"])
+            s = Session(cur, mode, conc.field, rng.randrange(56) if sessions is None else sessions[sn]["idiom"], keep)
+            cur_s[0] = s
             opened = s.open_values()
             lst = s.enter()
         except Exception as e:
@@ -647,11 +792,12 @@ def record_trace(rng, mode, nwords, nsessions, nops, script=None, lay=None, forc
                 c = plan[k]
             else:
                 op = rng.choice(["append"] * 4 + ["remove"] * 3 + ["replace"] * 2 + ["refset", "refremove", "refremove",
-                                "nl", "cmt", "reformat", "refpass"] + (["sep", "sep0"] if mode == "cm" else []))
+                                "nl", "cmt", "reformat", "refpass", "noreformat", "vfmt", "vfmtf"]
+                               + (["sep", "sep0"] if mode == "cm" else []))
                 where = None
                 if force is not None:
                     op, _, where = force[k].partition("@")
-                c = {"op": op, "v": None, "w": None, "i": 0}
+                c = {"op": op, "v": None, "w": None, "i": 0, "var": rng.randrange(6)}
                 if op == "append":
                     c["v"] = new_value(0.9 if force is not None else 0.6)
                 elif op in ("remove", "replace") and where and now:
@@ -694,14 +840,15 @@ def record_trace(rng, mode, nwords, nsessions, nops, script=None, lay=None, forc
                     events.append({"op": "refset", "v": [], "w": [], "i": idx, "res": "EXC:%s" % type(e).__name__,
                                    "obs": [], "doc": "ok"})
             else:
-                r = call(lst, c["op"], c["v"], c["w"], c["i"])
+                r = call(lst, c["op"], c["v"], c["w"], c["i"], c.get("var", 0), mode)
                 events.append({"op": c["op"], "v": code_of(c["v"]) if c["v"] is not None else [],
                                "w": code_of(c["w"]) if c["w"] is not None else [], "i": c["i"], "res": r,
                                "obs": observe(lst), "doc": "ok"})
             k += 1
-        r = s.leave()
+        ab = (rng.random() < 0.12 and force is None) if sessions is None else bool(sessions[sn].get("abort"))
+        r = s.leave(ab)
         after = s.dump()
-        got, names = read_field(after, mode, conc.field)
+        got, names = read_field(after, mode, conc.field, keep=keep, variant=s.idiom + sn)
         readable = "ok"
         if got is None and names.startswith("fresh parse raised"):
             # the list view cannot read what was written: only acceptable for an empty list (TLC decides)
@@ -716,16 +863,18 @@ def record_trace(rng, mode, nwords, nsessions, nops, script=None, lay=None, forc
             doc = "field names %r -> %r" % (doc_names, names)
         elif r == "ValueError" and after != cur:
             doc = "ValueError on leaving but the document changed"
+        elif ab and after != cur:
+            doc = "the block was left by an exception but the document changed"
         elif not calls and after != cur:
             doc = "open+close without change altered the document"
-        events.append({"op": "close", "v": [], "w": [], "i": 0, "res": r, "read": readable,
+        events.append({"op": "abort" if ab else "close", "v": [], "w": [], "i": 0, "res": r, "read": readable,
                        "obs": [code_of(x) for x in got] if got is not None else [], "doc": doc})
-        script_out.append({"idiom": s.idiom, "calls": calls})
+        script_out.append({"idiom": s.idiom, "calls": calls, "abort": ab})
         if doc != "ok" or readable != "ok":
             break
         cur = after
-    return {"mode": mode, "lay": lay, "events": events,
-            "script": {"conc": conc.to_json(), "sessions": script_out}, "text": text, "final": cur}
+    return {"mode": mode, "keep": bool(keep), "lay": lay, "events": events,
+            "script": {"conc": conc.to_json(), "sessions": script_out, "keep": bool(keep)}, "text": text, "final": cur}
 
 
 def corrupt(t, how):
@@ -752,7 +901,7 @@ def corrupt(t, how):
 
 
 def tlc_trace(t):
-    return {"mode": t["mode"], "lay": t["lay"], "events": t["events"]}
+    return {"mode": t["mode"], "keep": bool(t.get("keep")), "lay": t["lay"], "events": t["events"]}
 
 
 def validate(ctx, traces, with_controls=True):
@@ -782,7 +931,7 @@ def run(ctx):
     quick = ctx.tier == "quick"
     rng = ctx.rng
     ctx.assumptions += [
-        "layout tokens: word, comma, blanks, newline, continuation blank, comment line; bounds quick: <=3 words/7 tokens/1 comment line x 2 calls; thorough: <=4 words/9 tokens/2 comment lines x 2 calls and <=2 words/6 tokens x 3 calls (the final newline counts as a token); replayed cases: a 1/32 (quick) or 1/4 (thorough) slice of the layouts <=3 words/7 tokens x 2 calls chosen by the seed, plus every layout with a comment line inside a value",
+        "layout tokens: word, comma, blanks, newline, continuation blank, comment line; bounds quick: <=3 words/7 tokens/1 comment line x 2 calls; thorough: <=4 words/9 tokens/2 comment lines x 2 calls and <=2 words/6 tokens x 3 calls (the final newline counts as a token); replayed cases: a 1/64 (quick, at most 3000 cases) or 1/4 (thorough) slice of the layouts <=3 words/7 tokens x 2 calls chosen by the seed, plus every layout with a comment line inside a value",
         "new values are single items of the interpretation (no blanks in a space list, no comma, no leading '#', no newline); append_separator on a space list and sort are not exercised",
         "removing the only value: modelled as the code does (ValueError on leaving the with-block, document untouched)",
         "remove/replace of an absent value and append_newline after a newline: only 'the list does not change' is a verdict, the exception is a diagnostic",
@@ -816,7 +965,7 @@ def run(ctx):
     def emit_run():
         try:
             if quick:
-                emits = [emit_cfg(3, 7, 1, 2, 48, ctx.seed % 48)]
+                emits = [emit_cfg(3, 7, 1, 2, 64, ctx.seed % 64)]
             else:
                 emits = [emit_cfg(3, 7, 1, 2, 4, ctx.seed % 4), emit_cfg(3, 8, 2, 1, 2, ctx.seed % 2)]
             out = []
@@ -833,7 +982,7 @@ def run(ctx):
 
     def sim_run():
         try:
-            design["walks"] = multi.simulate_cases(ctx, "ListViewMulti", multi.sim_cfg(14), 40 if quick else 500, 16, ctx.seed + 1)
+            design["walks"] = multi.simulate_cases(ctx, "ListViewMulti", multi.sim_cfg(12 if quick else 14), 30 if quick else 500, 14 if quick else 16, ctx.seed + 1)
         except BaseException as e:
             design["error"] = e
     threads = [threading.Thread(target=f) for f in (design_run, emit_run, sim_run)]
@@ -843,7 +992,7 @@ def run(ctx):
     try:
         n_replayed = 0
         # 3. code -> spec: recorded executions on long layouts, validated by TLC
-        ntr = 300 if quick else 8000
+        ntr = 250 if quick else 8000
         traces = []
         for i in range(ntr):
             mode = "sp" if i % 2 == 0 else "cm"
@@ -871,7 +1020,7 @@ def run(ctx):
                                        forced=forced, stress=True, huge=(not quick and n < 20)))
             nstress += 1
         ctx.extra["stress_traces"] = nstress
-        mtraces = [multi.record_multi(rng, 30) for _ in range(120 if quick else 2000)]
+        mtraces = [multi.record_multi(rng, 30) for _ in range(100 if quick else 2000)]
         rejected, info, ncontrols = validate(ctx, traces)
         ctx.traces += len(traces)
         ctx.evaluations += len(traces)
@@ -912,8 +1061,8 @@ def run(ctx):
         if "error" in design:
             raise design["error"]
         cases = design["cases"]
-        if quick and len(cases) > 4500:      # keep the budget: values that run over several lines first
-            cases = sorted(cases, key=lambda c: not any(len(v) > 1 for v in c["v0"]))[:4500]
+        if quick and len(cases) > 3000:      # keep the budget: values that run over several lines first
+            cases = sorted(cases, key=lambda c: not any(len(v) > 1 for v in c["v0"]))[:3000]
         per_op = {}
         nconc = 1
         for ci, case in enumerate(cases):
@@ -967,9 +1116,9 @@ def run(ctx):
     if "error" in design:
         raise design["error"]
     ctx.extra["constants"] = {
-        "design": "MaxW=3 MaxT=7 MaxC=1 MaxEdits=2" if quick else "MaxW=4 MaxT=9 MaxC=2 MaxEdits=2; MaxW=2 MaxT=6 MaxC=1 MaxEdits=3",
+        "design": "MaxW=3 MaxT=7 MaxC=1 MaxEdits=2 Dups=FALSE" if quick else "MaxW=4 MaxT=9 MaxC=2 MaxEdits=2; MaxW=2 MaxT=6 MaxC=1 MaxEdits=3",
         "modes": ["sp", "cm"], "Dups": True, "Extras": True,
-        "emission": "MaxW=3 MaxT=7 MaxC=1 MaxEdits=2 slice %d/32 + inner-comment layouts" % (ctx.seed % 32) if quick
+        "emission": "MaxW=3 MaxT=7 MaxC=1 MaxEdits=2 slice %d/64 + inner-comment layouts (at most 3000 cases)" % (ctx.seed % 64) if quick
                     else "MaxW=3 MaxT=7 MaxC=1 MaxEdits=2 slice %d/4; MaxW=3 MaxT=8 MaxC=2 MaxEdits=1 slice %d/2" % (ctx.seed % 4, ctx.seed % 2),
         "trace layouts": "<= 8 words generated (+ appended), 1-3 with-blocks x <= 5 calls"}
     ctx.extra["multi"]["model_states"] = design["multi"].distinct
